@@ -325,6 +325,14 @@ func intsEq(a, b []int) bool {
 func main() {
 	log.SetLevel(log.PanicLevel)
 	log.SetOutput(os.Stderr)
+	if len(os.Args) > 1 && os.Args[1] == "locks" { // debugging aid: print the lock programs read from the source
+		printLockPrograms()
+		return
+	}
+	if len(os.Args) > 1 && os.Args[1] == "churnworker" {
+		churnWorker(os.Args[2:])
+		return
+	}
 	cfg := vhlib.ParseFlags()
 	sum := vhlib.NewSummary("one case = one forced interleaving of a segment rotation (4 steps) with a query (3 steps) on the real code, for a record query (`*`) and a statistics query (`* | stats count`); all 35 interleavings are enumerated (exhaustive at this granularity); an interleaving that blocks on a lock is recorded as infeasible; non-trivial = both threads take at least one step before the other finishes")
 	if err := initSiglens(cfg.Out + "/data"); err != nil {
@@ -391,8 +399,14 @@ func main() {
 	defs := "Open Scope nat_scope.\nDefinition cases : list (list tid * nat) := " + vhlib.CoqListNL(cases) + ".\n"
 	sum.WriteCaseFile(cfg.Out, "cases_sched", "From SigM Require Import Base Handover HandoverCheck.\n", defs, "check_sched_cases cases", len(cases))
 	// the hooks stay installed (siglens background goroutines read them); without a marked writer / reader they do nothing
+	if os.Getenv("VERIF_RACE_CHILD") == "" {
+		lockProgramStage(cfg, sum)
+		churnStage(cfg, sum)
+	}
+	endGuard := stageGuard(cfg, sum, "free-running stress and concurrent first ingest")
 	stress(cfg, sum)
 	concurrentFirstIngest(cfg, sum)
+	endGuard()
 	if os.Getenv("VERIF_RACE_CHILD") == "" {
 		raceStage(cfg, sum)
 	}
